@@ -32,6 +32,13 @@ type Container struct {
 	contentEncodingEnabled bool          // default is false
 	// pattern -> the ServeMux on which it is registered for dispatch
 	mappedPatterns map[string]*http.ServeMux
+	// handlers registered using Handle ; needed to register them again when Remove creates a new ServeMux
+	handlers []patternHandler
+}
+
+type patternHandler struct {
+	pattern string
+	handler http.Handler
 }
 
 // NewContainer creates a new Container using a new ServeMux and default router (CurlyRouter)
@@ -159,6 +166,9 @@ func (c *Container) Remove(ws *WebService) error {
 			}
 			newServices = append(newServices, each)
 		}
+	}
+	for _, each := range c.handlers {
+		newServeMux.Handle(each.pattern, each.handler)
 	}
 	c.webServices, c.ServeMux, c.isRegisteredOnRoot = newServices, newServeMux, newIsRegisteredOnRoot
 	return nil
@@ -350,7 +360,7 @@ func (c *Container) ServeHTTP(httpWriter http.ResponseWriter, httpRequest *http.
 
 // Handle registers the handler for the given pattern. If a handler already exists for pattern, Handle panics.
 func (c *Container) Handle(pattern string, handler http.Handler) {
-	c.ServeMux.Handle(pattern, http.HandlerFunc(func(httpWriter http.ResponseWriter, httpRequest *http.Request) {
+	wrapped := http.HandlerFunc(func(httpWriter http.ResponseWriter, httpRequest *http.Request) {
 		// Skip, if httpWriter is already an CompressingResponseWriter
 		if _, ok := httpWriter.(*CompressingResponseWriter); ok {
 			handler.ServeHTTP(httpWriter, httpRequest)
@@ -380,7 +390,11 @@ func (c *Container) Handle(pattern string, handler http.Handler) {
 		}
 
 		handler.ServeHTTP(writer, httpRequest)
-	}))
+	})
+	c.webServicesLock.Lock()
+	defer c.webServicesLock.Unlock()
+	c.ServeMux.Handle(pattern, wrapped)
+	c.handlers = append(c.handlers, patternHandler{pattern, wrapped})
 }
 
 // HandleWithFilter registers the handler for the given pattern.
